@@ -1233,6 +1233,11 @@ func run(r *core.Run) {
 		d.runOneForms(tot, info, &mu)
 	}
 
+	// ---- part ten: a confining library constructed before its directory exists (late.go)
+	if !r.Expired() && !r.Saturated() {
+		runLate(r)
+	}
+
 	// ---- part seven: layout mutations between loads on one library instance
 	if parts["mutation"] && !r.Expired() && !r.Saturated() {
 		d.runMutations(tot, info, &mu)
@@ -1316,6 +1321,9 @@ func (d *drv) precheck(info map[string]int64) {
 }
 
 func replay(v core.Violation) (bool, string) {
+	if lk, err := core.CaseOf[lateKase](v); err == nil && lk.Part == "late" {
+		return replayLate(lk)
+	}
 	k, err := core.CaseOf[kase](v)
 	if err != nil {
 		return false, err.Error()
